@@ -23,6 +23,7 @@ import (
 	"fmt"
 	"math"
 	"net"
+	"sort"
 	"sync"
 	"time"
 
@@ -712,25 +713,27 @@ func (r *multiCIDRRangeAllocator) ReleaseCIDR(logger klog.Logger, node *corev1.N
 		return nil
 	}
 
-	clusterCIDR, err := r.allocatedClusterCIDR(node)
-	if err != nil {
-		return err
+	clusterCIDRs := r.associatedClusterCIDRs(node)
+	if len(clusterCIDRs) == 0 {
+		return fmt.Errorf("no clusterCIDR found associated with node: %s", node.Name)
 	}
 
-	for _, cidr := range node.Spec.PodCIDRs {
-		_, podCIDR, err := netutil.ParseCIDRSloppy(cidr)
-		if err != nil {
-			return fmt.Errorf("failed to parse CIDR %q on Node %q: %w", cidr, node.Name, err)
+	for _, clusterCIDR := range clusterCIDRs {
+		for _, cidr := range node.Spec.PodCIDRs {
+			_, podCIDR, err := netutil.ParseCIDRSloppy(cidr)
+			if err != nil {
+				return fmt.Errorf("failed to parse CIDR %q on Node %q: %w", cidr, node.Name, err)
+			}
+
+			logger.Info("release CIDR for node", "CIDR", cidr, "node", klog.KObj(node))
+			if err := r.Release(logger, clusterCIDR, podCIDR); err != nil {
+				return fmt.Errorf("failed to release cidr %q from clusterCIDR %q for node %q: %w", cidr, clusterCIDR.Name, node.Name, err)
+			}
 		}
 
-		logger.Info("release CIDR for node", "CIDR", cidr, "node", klog.KObj(node))
-		if err := r.Release(logger, clusterCIDR, podCIDR); err != nil {
-			return fmt.Errorf("failed to release cidr %q from clusterCIDR %q for node %q: %w", cidr, clusterCIDR.Name, node.Name, err)
-		}
+		// Remove the node from the ClusterCIDR AssociatedNodes.
+		delete(clusterCIDR.AssociatedNodes, node.Name)
 	}
-
-	// Remove the node from the ClusterCIDR AssociatedNodes.
-	delete(clusterCIDR.AssociatedNodes, node.Name)
 
 	return nil
 }
@@ -971,19 +974,26 @@ func (r *multiCIDRRangeAllocator) cidrOverlapWithAllocatedList(cidr *net.IPNet) 
 	return false
 }
 
-// allocatedClusterCIDR returns the ClusterCIDR from which the node CIDRs were allocated.
-func (r *multiCIDRRangeAllocator) allocatedClusterCIDR(node *corev1.Node) (*cidrset.ClusterCIDR, error) {
-	clusterCIDRList, err := r.orderedMatchingClusterCIDRs(node, false)
-	if err != nil {
-		return nil, fmt.Errorf("unable to get a clusterCIDR for node %s: %w", node.Name, err)
+// associatedClusterCIDRs returns every ClusterCIDR the node is associated with, in a fixed order.
+// All ClusterCIDRs are searched rather than the ones matching the node's labels: the labels may have
+// changed since the CIDRs were occupied, and when ranges overlap a node can be associated with more
+// than one ClusterCIDR.
+func (r *multiCIDRRangeAllocator) associatedClusterCIDRs(node *corev1.Node) []*cidrset.ClusterCIDR {
+	selectors := make([]string, 0, len(r.cidrMap))
+	for selector := range r.cidrMap {
+		selectors = append(selectors, selector)
 	}
+	sort.Strings(selectors)
 
-	for _, clusterCIDR := range clusterCIDRList {
-		if ok := clusterCIDR.AssociatedNodes[node.Name]; ok {
-			return clusterCIDR, nil
+	associated := make([]*cidrset.ClusterCIDR, 0, 1)
+	for _, selector := range selectors {
+		for _, clusterCIDR := range r.cidrMap[selector] {
+			if ok := clusterCIDR.AssociatedNodes[node.Name]; ok {
+				associated = append(associated, clusterCIDR)
+			}
 		}
 	}
-	return nil, fmt.Errorf("no clusterCIDR found associated with node: %s", node.Name)
+	return associated
 }
 
 // orderedMatchingClusterCIDRs returns a list of all the ClusterCIDRs matching the node labels.
